@@ -181,3 +181,24 @@ package options
 //@   loop 2 invariant forall k string, i int :: !visited(k) && 0 <= i && i < rangeindex && (k in paramMaps[i]) && (forall j int :: i < j && j < rangeindex ==> !(k in paramMaps[j])) ==> newParams[k] == paramMaps[i][k]
 //@   ensures [C18,C16] keys-are-the-union: result != nil && (forall k string :: (k in result) == inSome(paramMaps, len(paramMaps), k))
 //@   ensures [C18,C16] last-map-wins: forall k string, i int :: 0 <= i && i < len(paramMaps) && (k in paramMaps[i]) && (forall j int :: i < j && j < len(paramMaps) ==> !(k in paramMaps[j])) ==> result[k] == paramMaps[i][k]
+
+// SubstituteVariables replaces ${name} by its value, one strings.ReplaceAll per key, while ranging over a Go map.
+// strings.ReplaceAll and the "${%v}" pattern are ASSUMED deterministic functions (replaceAll, varPattern).
+
+//@ func SubstituteVariables
+//@   tags C18
+//@   loop 1 invariant len(submap) == 0 ==> target == old(target)
+//@   ensures [C18] nothing-to-substitute: len(submap) == 0 ==> result == target
+// "the result is the same every time for the same Job and index": the loop applies one replacement per key in map
+// iteration order, so the result is independent of that order only if replacements for different keys commute.
+// They do not when a value contains the ${...} syntax of another key: known finding F5.
+//@ lemma [C18] replace-order-independent: forall t string, k1 string, v1 string, k2 string, v2 string :: k1 != k2 ==>
+//@     replaceAll(replaceAll(t, sprintf("${%v}", k1), v1), sprintf("${%v}", k2), v2) == replaceAll(replaceAll(t, sprintf("${%v}", k2), v2), sprintf("${%v}", k1), v1)
+
+//@ extern func SubstituteEmptyStringForPrefixes
+//@   params target, prefixes
+// priority: the maps are applied in the order given (most important first), then the reserved prefixes are emptied
+//@ func SubstituteVariableMaps
+//@   tags C18
+//@   loop 1 invariant -1 <= rangeindex && rangeindex < len(submaps)
+//@   loop 1 invariant len(submaps) == 0 ==> target == old(target)
